@@ -4,6 +4,7 @@ package main
 
 import (
 	"bytes"
+	"errors"
 	"fmt"
 	"go/types"
 	"os"
@@ -147,6 +148,23 @@ var _ = func() bool {
 		}
 		sort.Strings(l)
 		return verifList(l)
+	}
+	// listpkg <curpkg> <path> -> found | notfound | notdep | err  (the real listPackage)
+	verifOps["listpkg"] = func(a []string) string {
+		cur, ok := sharedCache.ListedPackages.get(string(verifUnhex(a[0])))
+		if !ok {
+			return "!nopkg"
+		}
+		_, err := listPackage(cur, string(verifUnhex(a[1])))
+		switch {
+		case err == nil:
+			return "found"
+		case errors.Is(err, ErrNotFound):
+			return "notfound"
+		case errors.Is(err, ErrNotDependency):
+			return "notdep"
+		}
+		return "err"
 	}
 	// linkname <curpkg> <localName> <newName> -> the real transformLinkname
 	verifOps["linkname"] = func(a []string) string {
